@@ -269,4 +269,99 @@ theorem durable_order_witness :
   revert this
   decide
 
+/-! ### the recovered store is the live store (the durable clause in observable terms) -/
+
+/-- FULL STRENGTH, corollary of `durable_order_eq_memory_order` stated on what a client can observe.
+    For every number of threads, ALL programs of `put_durable` (vector-free values) and
+    `delete_durable` on plain / graph / table keys — of a present key, of a key that was never put, of
+    a key another thread is putting or deleting at that moment — and EVERY interleaving: once all
+    calls have returned, a store recovered from the log file alone (`SlabRouter::recover`, replay
+    over an empty store) answers `get`, `exists` and `scan` (every prefix) about EVERY key exactly
+    as the live store does, and holds the same metadata entry.  In particular every write that
+    took effect in memory has its record in the log, in the order in which the writes took effect:
+    `delete_durable` appends its `MetadataDelete` under the mutex whether or not the key is there
+    (`logDelete`); deciding that from an observation made before the mutex loses the property
+    (`delete_skip_if_absent_witness`). -/
+theorem recovered_eq_live (progs : List ThreadProgram) (sched : List Nat)
+    (h : ∀ p ∈ progs, ∀ op ∈ p, op.simpleDurable = true)
+    (hq : quiescent (runSched true progs sched) = true) (k : Key) :
+    let live := (runSched true progs sched).store
+    let recovered := recover live.wal
+    (seqOp recovered (.get k)).2 = (seqOp live (.get k)).2 ∧
+    (seqOp recovered (.exists_ k)).2 = (seqOp live (.exists_ k)).2 ∧
+    (∀ p, k ∈ scanNow recovered p ↔ k ∈ scanNow live p) ∧
+    aget recovered.md k = aget live.md k := by
+  intro live recovered
+  have hv : view recovered k = view live k := durable_order_eq_memory_order progs sched h hq k
+  have inv : LInv (runSched true progs sched) := (LInv.init progs h).run sched
+  simp only [view, Prod.mk.injEq, decide_eq_decide] at hv
+  obtain ⟨hget, hex, hscan⟩ := hv
+  refine ⟨hget, ?_, ?_, inv.quiescent_agree hq k⟩
+  · simp only [seqOp, seqOpAux, stepOp, hex]
+  · intro p
+    rw [mem_scanNow_iff recovered p k, mem_scanNow_iff live p k, hscan]
+
+/-- non-vacuity: the hypotheses hold of the race the statement is about — `delete_durable user:1`
+    of a key that is absent at the start is granted while `put_durable user:1` is between its log
+    step and its apply (it does not move), then logs its `MetadataDelete` AFTER the set and removes
+    the value: the run is complete, memory and the recovered store both say "absent"; and of a
+    three-thread put / put / delete run on one key that ends with the key present in both -/
+example :
+    (∀ p ∈ putDeleteAbsentProgs, ∀ op ∈ p, op.simpleDurable = true) ∧
+    quiescent (runSched true putDeleteAbsentProgs putDeleteAbsentSched) = true ∧
+    (runSched true putDeleteAbsentProgs putDeleteAbsentSched).hist.map (fun r => (r.t, r.res, r.inv, r.ret))
+      = [(0, .ok, 0, 1), (1, .ok, 2, 3)] ∧
+    (runSched true putDeleteAbsentProgs putDeleteAbsentSched).store.wal
+      = [.metaSet kP1 ⟨1, .none⟩, .metaDel kP1] ∧
+    view (runSched true putDeleteAbsentProgs putDeleteAbsentSched).store kP1 = (.notFound, false, false) ∧
+    view (recover (runSched true putDeleteAbsentProgs putDeleteAbsentSched).store.wal) kP1
+      = (.notFound, false, false) ∧
+    quiescent (runSched true [[.putD kP1 ⟨1, .none⟩], [.putD kP1 ⟨2, .none⟩], [.delD kP1]]
+      [0, 2, 0, 2, 1, 2, 1, 1]) = true ∧
+    (runSched true [[.putD kP1 ⟨1, .none⟩], [.putD kP1 ⟨2, .none⟩], [.delD kP1]]
+      [0, 2, 0, 2, 1, 2, 1, 1]).store.wal
+      = [.metaSet kP1 ⟨1, .none⟩, .metaDel kP1, .metaSet kP1 ⟨2, .none⟩] ∧
+    view (recover (runSched true [[.putD kP1 ⟨1, .none⟩], [.putD kP1 ⟨2, .none⟩], [.delD kP1]]
+      [0, 2, 0, 2, 1, 2, 1, 1]).store.wal) kP1 = (.found ⟨2, .none⟩, true, true) := by decide
+
+/-- NOT THE CODE (`runSchedDelSkipIfAbsent`: `delete_durable` evaluates `exists(key)` before it takes
+    the log mutex and appends its records only if the key was there; the in-memory delete under the
+    mutex is unconditional).  Two threads, `user:1` absent at the start: A logs its set and holds the
+    mutex; B enters `delete_durable`, sees the key absent and waits for the mutex; A applies and
+    returns Ok; B gets the mutex, appends nothing, finds the key present, removes it and returns Ok.
+    Every reader of the live store sees `user:1` absent; the log holds the set alone, so the
+    recovered store has `user:1` = A's value.  On the step machine of the code (`runSched`) the same
+    picks end with the delete record logged after the set and the two stores equal. -/
+theorem delete_skip_if_absent_witness :
+    quiescent (runSchedDelSkipIfAbsent true putDeleteAbsentProgs putDeleteAbsentSched) = true ∧
+    (runSchedDelSkipIfAbsent true putDeleteAbsentProgs putDeleteAbsentSched).hist.map (fun r => (r.t, r.res))
+      = [(0, .ok), (1, .ok)] ∧
+    (runSchedDelSkipIfAbsent true putDeleteAbsentProgs putDeleteAbsentSched).store.wal
+      = [.metaSet kP1 ⟨1, .none⟩] ∧
+    view (runSchedDelSkipIfAbsent true putDeleteAbsentProgs putDeleteAbsentSched).store kP1
+      = (.notFound, false, false) ∧
+    view (recover (runSchedDelSkipIfAbsent true putDeleteAbsentProgs putDeleteAbsentSched).store.wal) kP1
+      = (.found ⟨1, .none⟩, true, true) ∧
+    ¬ DurableOrderEqMemoryOrder runSchedDelSkipIfAbsent ∧
+    (runSched true putDeleteAbsentProgs putDeleteAbsentSched).store.wal
+      = [.metaSet kP1 ⟨1, .none⟩, .metaDel kP1] := by
+  refine ⟨by decide, by decide, by decide, by decide, by decide, ?_, by decide⟩
+  intro h
+  have := h putDeleteAbsentProgs putDeleteAbsentSched (by decide) (by decide) kP1
+  revert this
+  decide
+
+/-- the variant differs from the code ONLY in that race: sequentially (here: delete of a missing
+    key, put, delete, delete again) it reaches the same memory and the same recovered store, with a
+    shorter log -/
+example :
+    (runSchedDelSkipIfAbsent true [[.delD kP1, .putD kP1 ⟨1, .none⟩, .delD kP1, .delD kP1]]
+      [0, 0, 0, 0, 0, 0, 0, 0]).store.wal = [.metaSet kP1 ⟨1, .none⟩, .metaDel kP1] ∧
+    (runSched true [[.delD kP1, .putD kP1 ⟨1, .none⟩, .delD kP1, .delD kP1]]
+      [0, 0, 0, 0, 0, 0, 0, 0]).store.wal = [.metaDel kP1, .metaSet kP1 ⟨1, .none⟩, .metaDel kP1, .metaDel kP1] ∧
+    (runSchedDelSkipIfAbsent true [[.delD kP1, .putD kP1 ⟨1, .none⟩, .delD kP1, .delD kP1]]
+      [0, 0, 0, 0, 0, 0, 0, 0]).hist.map (·.res) = [.notFound, .ok, .ok, .notFound] ∧
+    view (recover (runSchedDelSkipIfAbsent true [[.delD kP1, .putD kP1 ⟨1, .none⟩, .delD kP1, .delD kP1]]
+      [0, 0, 0, 0, 0, 0, 0, 0]).store.wal) kP1 = (.notFound, false, false) := by decide
+
 end Neumann.KV.Props
